@@ -15,9 +15,15 @@ def spec(th, seed):
         units.append(U('C10_matrix.simd-sse2', SRC, 'plain', defs=['-msse2'] + SIMD, args=['--only', '_f'], scale=0.1, libs=LIBS))
         units.append(U('C10_matrix.clang', SRC, 'clang', scale=0.1, libs=LIBS))
         units.append(U('C10_matrix.O0', SRC, 'plainO0', scale=0.03, libs=LIBS))
+    # aliasing supplement (mon/alias.cpp): destination / out-parameter is one of the operands; oracle = the same call with a copy of that operand
+    units.append(U('C10_alias', 'mon/alias.cpp', 'plain', defs=['-DALIAS_PROP=2']))
+    units.append(U('C10_alias.simd-aligned', 'mon/alias.cpp', 'plain', defs=['-DALIAS_PROP=2'] + ['-DGLM_FORCE_INTRINSICS', '-DGLM_FORCE_DEFAULT_ALIGNED_GENTYPES', '-mavx2', '-mfma']))
+    if th:
+        units.append(U('C10_alias.clang', 'mon/alias.cpp', 'clang', defs=['-DALIAS_PROP=2']))
+        units.append(U('C10_alias.simd-sse2.O0', 'mon/alias.cpp', 'plainO0', defs=['-DALIAS_PROP=2', '-DGLM_FORCE_INTRINSICS', '-DGLM_FORCE_DEFAULT_ALIGNED_GENTYPES', '-msse2'], scale=0.2))
     return {
         'units': units,
-        'rule': 'per element type (float, double) and size 2,3,4 (round robin) random matrices from ten families: U*diag(sigma)*V^T with random '
+        'rule': 'aliasing supplement (mon/alias.cpp): every compound/in-place/out-parameter form is run twice from the same state, once with the aliased operand replaced by a copy, and the final states must be bitwise identical; per element type (float, double) and size 2,3,4 (round robin) random matrices from ten families: U*diag(sigma)*V^T with random '
                 'orthogonal U,V and spectrum {one small sigma, geometric, one large sigma}, condition target log-uniform up to half the '
                 'limit of the statement (a quarter of the cases within the top fifth of the exponent range); uniform entries; signed '
                 'permutation times diagonal (optionally perturbed by 2^-2..2^-12); upper/lower (unit) triangular; two nearly dependent '
